@@ -1,7 +1,383 @@
-//! mvh_lz — not built yet.
+//! LZ10 / LZ13 codecs (C08 - C11).  Drives mila's compressors / decompressors and records what they did;
+//! every judgement is made by TLC over spec/LZ.tla (Trace_LZ) or by comparing with what TLC printed (Gen_LZ).
+//!
+//!   inputs  <lz10|lz13> <cases.ndjson>        input families for C08/C09 (exhaustive small + structured, seeded)
+//!   comp    <cases> <out> [--from k]          isolated: compress + own decompress, one "comp" event per case
+//!   size    <out.ndjson>                      C10: sizes of compressed periodic / small inputs ("size" events)
+//!   deccmp  <cases> <out> [--from k]          isolated: C11 spec->impl, decompress TLC's streams, compare with TLC's verdict
+//!   fuzzgen <seeds.ndjson> <cases.ndjson>     C11 impl->spec: corruptions of valid streams + random bytes
+//!   declog  <cases> <out> [--from k]          isolated: decompress, one "dec" event per case
+use mila::{CompressionFormat, LZ10CompressionFormat, LZ13CompressionFormat};
 use mvh::util::*;
+use serde_json::{json, Value};
+
+// ------------------------------------------------------------------------------------------------ calls into mila
+fn res_json(r: Result<Result<Vec<u8>, String>, String>) -> Value {
+    match r {
+        Ok(Ok(v)) => json!({"kind": "ok", "out": bytes_to_json(&v), "alloc": false, "msg": ""}),
+        Ok(Err(e)) => json!({"kind": "err", "out": [], "alloc": false, "msg": e}),
+        Err(p) => json!({"kind": "panic", "out": [], "alloc": false, "msg": p}),
+    }
+}
+
+fn compress(fmt: &str, input: &[u8]) -> Result<Result<Vec<u8>, String>, String> {
+    catch(|| match fmt {
+        "lz10" => LZ10CompressionFormat {}.compress(input).map_err(|e| e.to_string()),
+        "lz13" => LZ13CompressionFormat {}.compress(input).map_err(|e| e.to_string()),
+        _ => usage("fmt: lz10|lz13"),
+    })
+}
+
+fn decompress(entry: &str, stream: &[u8]) -> Result<Result<Vec<u8>, String>, String> {
+    catch(|| match entry {
+        "lz10" => LZ10CompressionFormat {}.decompress(stream).map_err(|e| e.to_string()),
+        "lz13" => LZ13CompressionFormat {}.decompress(stream).map_err(|e| e.to_string()),
+        "cf10" => CompressionFormat::LZ10(LZ10CompressionFormat {}).decompress(stream).map_err(|e| e.to_string()),
+        "cf13" => CompressionFormat::LZ13(LZ13CompressionFormat {}).decompress(stream).map_err(|e| e.to_string()),
+        _ => usage("entry: lz10|lz13|cf10|cf13"),
+    })
+}
+
+// ------------------------------------------------------------------------------------------------ input families
+fn all_strings(alpha: &[u8], maxlen: usize, out: &mut Vec<(String, Vec<u8>)>) {
+    let mut level: Vec<Vec<u8>> = vec![vec![]];
+    for _ in 0..=maxlen {
+        let mut next = Vec::new();
+        for s in &level {
+            out.push((format!("all{}", alpha.len()), s.clone()));
+            if s.len() < maxlen {
+                for &a in alpha {
+                    let mut t = s.clone();
+                    t.push(a);
+                    next.push(t);
+                }
+            }
+        }
+        level = next;
+    }
+}
+
+fn periodic(pat: &[u8], n: usize) -> Vec<u8> {
+    (0..n).map(|i| pat[i % pat.len()]).collect()
+}
+
+fn pattern(rng: &mut Rng, p: usize, kind: usize) -> Vec<u8> {
+    match kind {
+        0 => rng.bytes(p),                                       // incompressible first period
+        _ => (0..p).map(|_| b'a' + rng.below(2) as u8).collect(), // low entropy: matches inside the first period
+    }
+}
+
+/// LZ-style synthetic data: random seed bytes, then copies of chosen length from chosen distances (overlapping
+/// allowed) separated by a few fresh random bytes.
+fn self_similar(rng: &mut Rng, lens: &[usize], dists: &[usize], budget: usize, alpha: usize) -> Vec<u8> {
+    let mut v: Vec<u8> = (0..rng.range(1, 6)).map(|_| rng.below(alpha) as u8).collect();
+    while v.len() < budget {
+        let len = *rng.pick(lens);
+        let mut cand: Vec<usize> = dists.iter().cloned().filter(|d| *d <= v.len()).collect();
+        cand.push(rng.range(1, v.len()));
+        let dist = *rng.pick(&cand);
+        for _ in 0..len {
+            let b = v[v.len() - dist];
+            v.push(b);
+        }
+        for _ in 0..rng.range(0, 3) {
+            v.push(rng.next() as u8);
+        }
+    }
+    v
+}
+
+fn structured(fmt: &str, rng: &mut Rng, quick: bool) -> Vec<(String, Vec<u8>)> {
+    let mut v: Vec<(String, Vec<u8>)> = Vec::new();
+    v.push(("empty".into(), vec![]));
+    // lengths around the 8-token and 18-byte boundaries, incompressible and 4-letter
+    for n in 1..=40 {
+        v.push(("rand".into(), rng.bytes(n)));
+        v.push(("rand4".into(), (0..n).map(|_| rng.below(4) as u8).collect()));
+    }
+    // runs: a run of n bytes gives two literals and matches covering n-2 bytes
+    let mut runs = vec![1, 2, 3, 4, 5, 17, 18, 19, 20, 21, 22, 37, 38, 39, 146, 147, 274, 275, 276, 1000, 4097, 4098, 4099, 4100];
+    runs.extend_from_slice(if quick { &[5000] } else { &[5000, 8194, 8195, 20000, 65536] });
+    for n in runs {
+        v.push(("run".into(), vec![b'r'; n]));
+    }
+    // periodic data, periods around the length forms and the window edge
+    let periods: &[usize] = &[2, 3, 17, 18, 19, 255, 256, 272, 273, 4094, 4095, 4096, 4097, 4098, 5000];
+    for &p in periods {
+        for kind in 0..2 {
+            let pat = pattern(rng, p, kind);
+            v.push((format!("per{}", p), periodic(&pat, 2 * p + 37)));
+            if !quick || p < 1000 {
+                v.push((format!("per{}", p), periodic(&pat, p + 4096 + 19)));
+            }
+        }
+    }
+    // self-similar data forcing each reference form and window-edge displacements
+    let lens: &[usize] = if fmt == "lz10" { &[3, 4, 17, 18, 19, 20, 36, 40] } else { &[3, 4, 16, 17, 18, 272, 273, 274, 1000, 4096, 4097, 5000] };
+    let dists = [1usize, 2, 3, 4, 17, 255, 256, 4094, 4095, 4096, 4097];
+    for k in 0..(if quick { 6 } else { 30 }) {
+        let budget = if quick { 3000 + 1500 * k } else { 4000 + 2000 * k };
+        v.push(("selfsim".into(), self_similar(rng, lens, &dists, budget, 3)));
+    }
+    for _ in 0..(if quick { 20 } else { 100 }) {
+        let budget = rng.range(20, 300);
+        v.push(("selfsim-s".into(), self_similar(rng, &[3, 4, 5, 16, 17, 18, 19], &[1, 2, 3, 4], budget, 2)));
+    }
+    // incompressible
+    let inc: &[usize] = if quick { &[63, 64, 65, 127, 128, 129, 1000, 4097, 6000] } else { &[63, 64, 65, 127, 128, 129, 1000, 4097, 6000, 20000, 65536] };
+    for &n in inc {
+        v.push(("incompressible".into(), rng.bytes(n)));
+    }
+    // text-like
+    let words: [&[u8]; 6] = [b"the ", b"quick ", b"brown ", b"fox ", b"jumps ", b"over "];
+    for k in 0..(if quick { 3 } else { 10 }) {
+        let mut t = Vec::new();
+        while t.len() < 500 + 1500 * k {
+            t.extend_from_slice(words[rng.below(6)]);
+        }
+        v.push(("text".into(), t));
+    }
+    v
+}
+
+fn cmd_inputs(fmt: &str, path: &str) {
+    let quick = tier_is_quick();
+    let mut rng = Rng::new(seed_from_env() ^ if fmt == "lz10" { 0x10 } else { 0x13 });
+    let mut v = Vec::new();
+    all_strings(b"ab", if quick { 11 } else { 14 }, &mut v);
+    all_strings(b"abc", if quick { 7 } else { 9 }, &mut v);
+    v.extend(structured(fmt, &mut rng, quick));
+    let mut w = NdWriter::create(path);
+    for (tag, input) in v {
+        w.put(&json!({"fmt": fmt, "tag": tag, "input": bytes_to_json(&input)}));
+    }
+    w.finish();
+}
+
+// ------------------------------------------------------------------------------------------------ C08 / C09
+fn cmd_comp(cases_path: &str, out_path: &str, from: usize) {
+    let cases = read_ndjson(cases_path);
+    run_isolated(&cases, from, out_path, |_, c| {
+        let fmt = c["fmt"].as_str().unwrap();
+        let input = json_to_bytes(&c["input"]);
+        let r = compress(fmt, &input);
+        let rt = match &r {
+            Ok(Ok(s)) => res_json(decompress(fmt, s)),
+            _ => json!({"kind": "none", "out": [], "alloc": false, "msg": ""}),
+        };
+        json!({"kind": "comp", "fmt": fmt, "tag": c["tag"], "input": c["input"], "res": res_json(r), "rt": rt})
+    });
+}
+
+// ------------------------------------------------------------------------------------------------ C10
+fn size_event(fmt: &str, input: &[u8], p: usize, pk: usize, list_input: bool) -> Value {
+    let r = compress(fmt, input);
+    let (ok, clen, msg) = match r {
+        Ok(Ok(s)) => (true, s.len(), String::new()),
+        Ok(Err(e)) => (false, 0, e),
+        Err(p) => (false, 0, format!("panic {}", p)),
+    };
+    json!({"kind": "size", "fmt": fmt, "n": input.len(), "p": p, "pk": pk,
+           "input": if list_input { bytes_to_json(input) } else { json!([]) }, "ok": ok, "clen": clen, "msg": msg})
+}
+
+fn cmd_size(out_path: &str) {
+    let quick = tier_is_quick();
+    let seed = seed_from_env();
+    // jobs: (fmt, period, pattern kind, n)
+    let mut periods: Vec<usize> = Vec::new();
+    if quick {
+        periods.extend(1..=40);
+        periods.extend_from_slice(&[255, 256, 257, 1000, 2048, 4090, 4091, 4092, 4093, 4094, 4095, 4096]);
+    } else {
+        periods.extend(1..=4096);
+    }
+    let mut jobs: Vec<(&'static str, usize, usize, usize)> = Vec::new();
+    for &p in &periods {
+        for fmt in ["lz10", "lz13"] {
+            // long enough that a shortened match length or window shows up in the number of references
+            let long = if fmt == "lz10" { p + 4096 + 19 } else { p + 4 * 4096 + 19 };
+            for n in [2 * p + 37, long] {
+                for pk in 0..2 {
+                    jobs.push((fmt, p, pk, n));
+                }
+            }
+        }
+    }
+    let nthreads = 6usize;
+    let chunk = (jobs.len() + nthreads - 1) / nthreads;
+    let mut results: Vec<Vec<Value>> = Vec::new();
+    std::thread::scope(|sc| {
+        let mut hs = Vec::new();
+        for part in jobs.chunks(chunk.max(1)) {
+            hs.push(sc.spawn(move || {
+                part.iter()
+                    .map(|&(fmt, p, pk, n)| {
+                        let mut rng = Rng::new(seed ^ ((p as u64) << 20) ^ ((pk as u64) << 40) ^ n as u64);
+                        let pat = pattern(&mut rng, p, pk);
+                        size_event(fmt, &periodic(&pat, n), p, pk, false)
+                    })
+                    .collect::<Vec<Value>>()
+            }));
+        }
+        for h in hs {
+            results.push(h.join().expect("worker thread"));
+        }
+    });
+    let mut w = NdWriter::create(out_path);
+    for r in results.iter().flatten() {
+        w.put(r);
+    }
+    // expansion bound (and every period TLC finds in them) on all small inputs and the structured families
+    let mut small = Vec::new();
+    all_strings(b"ab", if quick { 10 } else { 13 }, &mut small);
+    all_strings(b"abc", if quick { 6 } else { 8 }, &mut small);
+    for fmt in ["lz10", "lz13"] {
+        for (_, x) in &small {
+            if !(fmt == "lz13" && x.is_empty()) {
+                w.put(&size_event(fmt, x, 0, 9, true));
+            }
+        }
+        let mut rng = Rng::new(seed ^ 0xC10);
+        for (_, x) in structured(fmt, &mut rng, true) {
+            if !x.is_empty() {
+                w.put(&size_event(fmt, &x, 0, 9, x.len() <= 48));
+            }
+        }
+    }
+    w.finish();
+}
+
+// ------------------------------------------------------------------------------------------------ C11 spec -> impl
+fn cmd_deccmp(cases_path: &str, out_path: &str, from: usize) {
+    let cases = read_ndjson(cases_path);
+    run_isolated(&cases, from, out_path, |_, c| {
+        let entry = c["entry"].as_str().unwrap();
+        let cls = c["cls"].as_str().unwrap();
+        let stream = json_to_bytes(&c["stream"]);
+        let expect = json_to_bytes(&c["expect"]);
+        let r = decompress(entry, &stream);
+        let (kind, same, got_len, msg) = match &r {
+            Ok(Ok(v)) => ("ok", *v == expect, v.len(), String::new()),
+            Ok(Err(e)) => ("err", false, 0, e.clone()),
+            Err(p) => ("panic", false, 0, p.clone()),
+        };
+        // compare with TLC's verdict: ok -> Ok(expect); err -> Err; okerr -> Ok(expect) or Err; open -> Ok(_) or Err
+        let conforms = match cls {
+            "ok" => kind == "ok" && same,
+            "err" => kind == "err",
+            "okerr" => (kind == "ok" && same) || kind == "err",
+            "open" => kind == "ok" || kind == "err",
+            _ => usage("cls: ok|err|okerr|open"),
+        };
+        let got_head: Vec<u8> = match &r {
+            Ok(Ok(v)) => v.iter().cloned().take(64).collect(),
+            _ => vec![],
+        };
+        json!({"conforms": conforms, "kind": kind, "same": same, "got_len": got_len, "got_head": bytes_to_json(&got_head), "msg": msg})
+    });
+}
+
+// ------------------------------------------------------------------------------------------------ C11 impl -> spec
+fn corrupt(rng: &mut Rng, s: &[u8]) -> Vec<u8> {
+    let mut v = s.to_vec();
+    let n = v.len();
+    match rng.below(10) {
+        0 if n > 0 => v.truncate(rng.below(n)),                 // any truncation
+        1 if n > 0 => v.truncate(n - 1 - rng.below(n.min(4))),  // cut inside the last token
+        2 if n > 0 => { let i = rng.below(n); v[i] ^= 1 << rng.below(8); }
+        3 if n > 0 => { let i = rng.below(n); v[i] = *rng.pick(&[0u8, 0xFF, 0x0F, 0xF0, 0x10, 0x11, 0x13]); }
+        4 if n > 4 => { let i = rng.range(4, n - 1); v[i] = 0xFF; }        // flag byte / reference with far displacement
+        5 if n > 0 => { let i = rng.below(n.min(8)); v[i] = rng.next() as u8; } // header bytes
+        6 if n > 0 => { v.remove(rng.below(n)); }
+        7 => { v.insert(rng.below(n + 1), rng.next() as u8); }
+        8 => { let k = rng.range(1, 4); v.extend(rng.bytes(k)); }
+        _ => { for _ in 0..rng.range(2, 4) { if !v.is_empty() { let i = rng.below(v.len()); v[i] = rng.next() as u8; } } }
+    }
+    v
+}
+
+fn cmd_fuzzgen(seeds_path: &str, out_path: &str) {
+    let quick = tier_is_quick();
+    let mut rng = Rng::new(seed_from_env() ^ 0xC11);
+    let mut seeds: Vec<Vec<u8>> = read_ndjson(seeds_path).iter().map(|c| json_to_bytes(&c["stream"])).filter(|s| s.len() <= 400).collect();
+    // streams of mila's own compressors (several flag groups, realistic token mixes)
+    for k in 0..(if quick { 12 } else { 60 }) {
+        let x = self_similar(&mut rng, &[3, 4, 16, 17, 18, 19, 40], &[1, 2, 3, 4, 17], 30 + 25 * (k % 12), 3);
+        for fmt in ["lz10", "lz13"] {
+            if let Ok(Ok(s)) = compress(fmt, &x) {
+                seeds.push(s);
+            }
+        }
+    }
+    if seeds.is_empty() {
+        usage("fuzzgen: no seeds");
+    }
+    let entries = ["lz10", "lz13", "cf10", "cf13"];
+    let mut w = NdWriter::create(out_path);
+    let n_corrupt = if quick { 2500 } else { 25000 };
+    for _ in 0..n_corrupt {
+        let seed = seeds[rng.below(seeds.len())].clone();
+        let s = corrupt(&mut rng, &seed);
+        let s = if rng.chance(1, 5) { corrupt(&mut rng, &s) } else { s };
+        w.put(&json!({"entry": *rng.pick(&entries), "tag": "corrupt", "stream": bytes_to_json(&s)}));
+    }
+    // arbitrary bytes behind every plausible first byte, all short lengths
+    let n_random = if quick { 1500 } else { 15000 };
+    for k in 0..n_random {
+        let n = if k < 200 { k % 10 } else { rng.range(0, 48) };
+        let mut s = rng.bytes(n);
+        if n > 0 && rng.chance(5, 6) {
+            s[0] = *rng.pick(&[0x10u8, 0x11, 0x13, 0x00]);
+            if n > 3 && rng.chance(2, 3) {
+                // a plausible declared length
+                s[1] = rng.below(40) as u8;
+                s[2] = 0;
+                s[3] = 0;
+            }
+            if s[0] == 0x13 && n > 7 && rng.chance(3, 4) {
+                s[4] = *rng.pick(&[0x10u8, 0x11]);
+                s[5] = rng.below(40) as u8;
+                s[6] = 0;
+                s[7] = 0;
+            }
+        }
+        w.put(&json!({"entry": *rng.pick(&entries), "tag": "random", "stream": bytes_to_json(&s)}));
+    }
+    w.finish();
+}
+
+fn cmd_declog(cases_path: &str, out_path: &str, from: usize) {
+    let cases = read_ndjson(cases_path);
+    run_isolated(&cases, from, out_path, |_, c| {
+        let entry = c["entry"].as_str().unwrap();
+        let stream = json_to_bytes(&c["stream"]);
+        json!({"kind": "dec", "entry": entry, "tag": c["tag"], "stream": c["stream"], "res": res_json(decompress(entry, &stream))})
+    });
+}
+
+fn from_arg(args: &[String], at: usize) -> usize {
+    if args.len() == at + 2 && args[at] == "--from" {
+        args[at + 1].parse().unwrap_or_else(|_| usage("--from <k>"))
+    } else if args.len() == at {
+        0
+    } else {
+        usage("... [--from k]")
+    }
+}
 
 fn main() {
     install_panic_hook();
-    usage("mvh_lz: not implemented yet");
+    let args: Vec<String> = std::env::args().skip(1).collect();
+    let a = &args[..];
+    match a.first().map(|s| s.as_str()) {
+        Some("inputs") if a.len() == 3 => cmd_inputs(&a[1], &a[2]),
+        Some("comp") if a.len() >= 3 => cmd_comp(&a[1], &a[2], from_arg(a, 3)),
+        Some("size") if a.len() == 2 => cmd_size(&a[1]),
+        Some("deccmp") if a.len() >= 3 => cmd_deccmp(&a[1], &a[2], from_arg(a, 3)),
+        Some("fuzzgen") if a.len() == 3 => cmd_fuzzgen(&a[1], &a[2]),
+        Some("declog") if a.len() >= 3 => cmd_declog(&a[1], &a[2], from_arg(a, 3)),
+        _ => usage("mvh_lz inputs <lz10|lz13> <cases> | comp <cases> <out> [--from k] | size <out> | deccmp <cases> <out> [--from k] | fuzzgen <seeds> <cases> | declog <cases> <out> [--from k]"),
+    }
 }
